@@ -88,6 +88,12 @@ def dfs_configs(tier, retry=True, return_results=True):
     # two runs on the same pool: the first one may fail (poison input kills every worker), fresh workers are added, second run
     cfgs.append(dict(workers=1, inputs=2, extra=0, max_deaths=1, retry=retry, return_results=return_results, runs=2))
     cfgs.append(dict(workers=2, inputs=2, extra=1, max_deaths=0, retry=retry, return_results=return_results, poison=[1], runs=2))
+    # the same pool after restart_workers(): a run with a death, restart, a run with a death and a survivor
+    cfgs.append(dict(workers=2, inputs=2, extra=0, max_deaths=1, retry=retry, return_results=return_results, runs=2, between='restart'))
+    cfgs.append(dict(workers=2, inputs=3, extra=1, max_deaths=1, retry=retry, return_results=return_results, runs=2, between='restart'))
+    # the hand-over of an input fails once or twice while the worker stays alive (transient failure of enqueue)
+    cfgs.append(dict(workers=2, inputs=3, extra=0, max_deaths=0, retry=retry, return_results=return_results, raise_at=[[0, 1, 1]]))
+    cfgs.append(dict(workers=2, inputs=3, extra=1, max_deaths=1, retry=retry, return_results=return_results, raise_at=[[1, 0, 2], [0, 2, 1]]))
     if tier == 'thorough':
         cfgs.append(dict(workers=2, inputs=4, extra=1, max_deaths=1, retry=retry, return_results=return_results))
         cfgs.append(dict(workers=3, inputs=3, extra=0, max_deaths=1, retry=retry, return_results=return_results))
@@ -112,6 +118,10 @@ def walk_configs(tier, r, n, retry=True, return_results=True):
             cfg['per_worker_callable'] = True
         if r.random() < 0.25:
             cfg['runs'] = 2
+            if r.random() < 0.5:
+                cfg['between'] = 'restart'
+        if r.random() < 0.2 and inputs and not cfg.get('refuse'):
+            cfg['raise_at'] = [[r.randrange(w), r.randrange(inputs), r.randint(1, 2)] for _ in range(r.randint(1, 2))]
         cfgs.append(cfg)
     return cfgs
 
@@ -174,7 +184,7 @@ def run(tier):
     thorough = tier == 'thorough'
     chk = Check('C07', 'exploration', tier,
                 'real Pool.run under the scheduler shim: a case = one schedule (choice sequence over worker answers/deaths at each wait/enqueue sync point and ready-list order/subset); '
-                'DFS with re-execution exhausts the small configurations, seeded walks sample pools of 1-3 workers, 0-6 inputs, extra 0-2, <=3 deaths, poison inputs, bare EOF, refusing enqueue_fn, per-worker callables; '
+                'DFS with re-execution exhausts the small configurations, seeded walks sample pools of 1-3 workers, 0-6 inputs, extra 0-2, <=3 deaths, poison inputs, bare EOF, refusing enqueue_fn, transiently failing enqueue, per-worker callables, 1-2 runs per pool with new workers or restart_workers() in between; '
                 'distinct non-trivial = distinct choice sequences')
     r = rng('c07')
     shards = [dict(cfg=c, mode='dfs', budget_s=(600 if thorough else 45)) for c in dfs_configs(tier)]
